@@ -6,11 +6,27 @@ from . import reports
 from .types import ExpressionToken
 
 
-def wrap_impure(expr, invoke):
+def wrap_impure(expr, invoke, state):
     def fn(*args):
         expr.value = invoke(*args)
+        expr.value_emit_address = state.get("emit_address")
         return expr.value
     return fn
+
+
+def cached_value(expr, state):
+    # The result of an impure operator is remembered on its token so that its
+    # diagnostics are not repeated. The same token is however evaluated at
+    # several places when it belongs to a '.repeat' body, and its value may
+    # depend on '.', so the remembered value is only valid for the address it
+    # was computed at.
+    if expr.value is None:
+        return None
+    addr = state.get("emit_address")
+    cached_addr = expr.value_emit_address
+    if cached_addr is addr or (isinstance(addr, int) and isinstance(cached_addr, int) and cached_addr == addr):
+        return expr.value
+    return None
 
 
 class InfixOperator(ExpressionToken):
@@ -26,10 +42,12 @@ class InfixOperator(ExpressionToken):
         self.lhs: ExpressionToken = lhs
         self.rhs: ExpressionToken = rhs
         self.value = None
+        self.value_emit_address = None
 
     def resolve(self, state):
-        if self.value is not None:
-            return self.value
+        value = cached_value(self, state)
+        if value is not None:
+            return value
 
         lhs = self.lhs.resolve(state)
         rhs = self.rhs.resolve(state)
@@ -39,7 +57,7 @@ class InfixOperator(ExpressionToken):
         # is True
         invoke = self.fn if self.token else type(self).fn
         if not self.pure:
-            invoke = wrap_impure(self, invoke)
+            invoke = wrap_impure(self, invoke, state)
 
         if not isinstance(lhs, BaseDeferred) and not isinstance(rhs, BaseDeferred):
             return invoke(lhs, rhs)
@@ -66,16 +84,18 @@ class UnaryOperator(ExpressionToken):
         super().__init__(ctx_start, ctx_end)
         self.operand: ExpressionToken = operand
         self.value = None
+        self.value_emit_address = None
 
     def resolve(self, state):
-        if self.value is not None:
-            return self.value
+        value = cached_value(self, state)
+        if value is not None:
+            return value
 
         operand = self.operand.resolve(state)
 
         invoke = self.fn if self.token else type(self).fn
         if not self.pure:
-            invoke = wrap_impure(self, invoke)
+            invoke = wrap_impure(self, invoke, state)
 
         if not isinstance(operand, BaseDeferred):
             return invoke(operand)
